@@ -93,13 +93,13 @@ pub fn golomb_case(case: &Value, _mode: &str, rep: &mut Report) {
             checks += 5;
             if b >= 8 && n <= u8::MAX as u64 { out.extend(golomb_one::<u8>(n as u8, &cw, "ExpGolomb<u8>")); }
             if b >= 16 && n <= u16::MAX as u64 { out.extend(golomb_one::<u16>(n as u16, &cw, "ExpGolomb<u16>")); }
-            if b >= 16 { out.extend(golomb_one::<u32>(n as u32, &cw, "ExpGolomb<u32>")); out.extend(golomb_one::<u64>(n, &cw, "ExpGolomb<u64>")); out.extend(golomb_one::<usize>(n as usize, &cw, "ExpGolomb<usize>")); }
+            if b >= 16 { out.extend(golomb_one::<u128>(n as u128, &cw, "ExpGolomb<u128>")); out.extend(golomb_one::<u32>(n as u32, &cw, "ExpGolomb<u32>")); out.extend(golomb_one::<u64>(n, &cw, "ExpGolomb<u64>")); out.extend(golomb_one::<usize>(n as usize, &cw, "ExpGolomb<usize>")); }
         } else {
-            for b in [8u32, 16, 32, 64].iter() {
+            for b in [8u32, 16, 32, 64, 128].iter() {
                 for c in case["cases"][b.to_string().as_str()].as_array().unwrap() {
                     let d = c["d"].as_u64().unwrap(); let cw = bits_of(&c["codeword"]); checks += 1;
                     match b { 8 => out.extend(golomb_one::<u8>(u8::MAX - d as u8, &cw, "ExpGolomb<u8>")), 16 => out.extend(golomb_one::<u16>(u16::MAX - d as u16, &cw, "ExpGolomb<u16>")),
-                              32 => out.extend(golomb_one::<u32>(u32::MAX - d as u32, &cw, "ExpGolomb<u32>")), _ => { out.extend(golomb_one::<u64>(u64::MAX - d, &cw, "ExpGolomb<u64>")); out.extend(golomb_one::<usize>(usize::MAX - d as usize, &cw, "ExpGolomb<usize>")); } }
+                              32 => out.extend(golomb_one::<u32>(u32::MAX - d as u32, &cw, "ExpGolomb<u32>")), 128 => out.extend(golomb_one::<u128>(u128::MAX - d as u128, &cw, "ExpGolomb<u128>")), _ => { out.extend(golomb_one::<u64>(u64::MAX - d, &cw, "ExpGolomb<u64>")); out.extend(golomb_one::<usize>(usize::MAX - d as usize, &cw, "ExpGolomb<usize>")); } }
                 }
             }
         }
